@@ -47,10 +47,32 @@ def validate_trace_chunks(ctx, module, cfg, trace_path, parts, keyfn, whatfn, wo
     return total
 
 
+def tlaps_prove(ctx, module, deps):
+    """Machine-check the proofs of spec/<module>.tla with tlapm; returns the number of proof obligations."""
+    import re as _re
+    d = os.path.join(ctx.scratch, "tlaps-" + module)
+    os.makedirs(d, exist_ok=True)
+    for f in [module] + list(deps):
+        shutil.copy(os.path.join(VERIF, "spec", f + ".tla"), d)
+    if shutil.which("tlapm") is None:
+        raise ToolTrouble("tlapm is not on PATH")
+    try:
+        p = subprocess.run(["tlapm", "--threads", str(NCPU), module + ".tla"], cwd=d, capture_output=True, text=True, timeout=900)
+    except subprocess.TimeoutExpired:
+        raise ToolTrouble("tlapm timed out on " + module)
+    out = p.stdout + p.stderr
+    m = _re.search(r"All (\d+) obligations? proved", out)
+    if p.returncode != 0 or not m:
+        raise ToolTrouble("TLAPS could not check the proofs of %s (a problem in the specification, not a verdict on the code):\n%s" % (module, out[-2500:]))
+    log("TLAPS %s: %s obligations proved" % (module, m.group(1)))
+    return int(m.group(1))
+
+
 # ----------------------------------------------------------------------------- C07
 @check("C07")
 def c07(ctx):
     th = ctx.thorough
+    obligations = tlaps_prove(ctx, "ACLProofs", ["ACLDefs"])
     domains = [{"sigma": [42, 47, 46, 10, 97], "maxp": 3, "maxn": 4}]
     if th:
         domains = [{"sigma": [42, 47, 46, 10, 97, 43], "maxp": 4, "maxn": 4},
@@ -108,7 +130,9 @@ def c07(ctx):
                    "answer of the real code validated by TLC as a trace line; distinct by (pattern,name) / (rules,action,name)",
            "samples": samples, "exhaustive": True,
            "exhaustive_pairs": evals, "random_events_validated": tot["validated"],
-           "states": states, "transitions": transitions, "traces_validated_against_impl": 1}
+           "states": states, "transitions": transitions, "traces_validated_against_impl": 1,
+           "tlaps_obligations_proved": obligations,
+           "tlaps_theorems": "EmptyDenies, NoActionNoGrant, NoPatternNoGrant, MonotoneRight, MonotoneLeft, OnlyFromParts (rule sets of any length, any matcher)"}
     return "exploration", cov, ["regexp and the spec agree on what a code point is (Go runes of valid UTF-8)",
                                 "TLC evaluates Glob!Match correctly; Match and MatchP are independent definitions checked equal on the bounded domain"]
 
